@@ -21,7 +21,8 @@ RULE = ("seeded generator of abstract OJN files: 300-byte header (boundary ints,
         "non-ascii bytes / full width / empty), 3 difficulties, 0..25 packages each in a random merge of per-channel measure-ordered "
         "queues, slot counts 1..192 (powers of two in the exact stream), 0..6 tempo events at any position (measure 0 slot 0, "
         "mid-measure, exactly at a note's position (same or an equivalent slot fraction), after the last note, shuffled packages), taps / long notes spanning packages and measures on all 7 columns, "
-        "autoplay channels, trailing bytes, read() and read_file(); plus a malformed stream (truncation, orphan tail, channel 0, "
+        "autoplay channels, trailing bytes; a quarter of the cases (well-formed and malformed alike) is written to disk in a "
+        "tempfile.TemporaryDirectory and read with O2JMapSet.read_file(path), the rest with O2JMapSet.read(bytes); plus a malformed stream (truncation, orphan tail, channel 0, "
         "wrong package counts) checked for correspondence only.  Non-trivial = at least one note or tempo event or a non-default "
         "header string; distinct by hash of the canonical JSON of the case")
 ASSUMPTIONS = [
@@ -366,7 +367,7 @@ def _case(rng):
                   for _ in range(3)]
     case = {"exact": exact, "hdr": _header(rng, exact), "levels": [_level(rng, exact, s) for s in styles],
             "trail": [rng.randint(0, 255) for _ in range(rng.choice([0, 0, 0, 1, 7, 30]))],
-            "api": "read_file" if rng.random() < 0.1 else "read", "wf": True}
+            "api": "read_file" if rng.random() < 0.25 else "read", "wf": True}
     return case
 
 
@@ -433,13 +434,11 @@ def execute(case):
     b = build_bytes(case)
     try:
         if case.get("api") == "read_file":
-            fd, path = tempfile.mkstemp(suffix=".ojn")
-            try:
-                with os.fdopen(fd, "wb") as f:
+            with tempfile.TemporaryDirectory() as tmp:
+                path = os.path.join(tmp, "case.ojn")
+                with open(path, "wb") as f:
                     f.write(b)
                 ms = O2JMapSet.read_file(path)
-            finally:
-                os.unlink(path)
         else:
             ms = O2JMapSet.read(b)
     except (TypeError, KeyError, IndexError, AttributeError, struct.error, ZeroDivisionError) as e:
@@ -796,6 +795,8 @@ def bucket(case, out):
     k += "/tempo=" + ",".join(_tempo_class(l) for l in case["levels"])
     if out.get("v") is None:
         k += "/exc=" + str(out.get("exc", "?")).split(":")[0]
+    if case.get("api") == "read_file":
+        k += "/read_file"
     return k
 
 
